@@ -517,6 +517,34 @@ func c13Random(r *Run) {
 	w.Created = clone.Created
 	w.Exps = clone.Exps
 	var faults []string
+	if crashAt >= 0 && t.Bool(1, 3, "older-set-present") {
+		// an older, complete set of the same files (earlier content) is
+		// already in the directory when the new Create is interrupted
+		old := *w
+		old.Disk = w.Disk
+		oldFiles := make([][]byte, len(w.Files))
+		for i := range w.Files {
+			oldFiles[i], _ = w.Disk.Get(w.Path(i))
+			d := append([]byte(nil), w.Files[i].Data...)
+			if len(d) > 0 {
+				d[t.Draw(len(d), "old-byte")] ^= 0x33
+			}
+			w.Disk.Put(w.Path(i), d)
+		}
+		old.R = 1 + t.Draw(5, "old-R")
+		var oc *OpResult
+		if par1Set {
+			oc = r.Create1(&old, w.Index, w.FilePaths(), nil)
+		} else {
+			oc = r.Create2(&old, w.FilePaths(), nil, SchedSpec{})
+		}
+		r.noPanic(oc)
+		for i := range w.Files {
+			w.Disk.Put(w.Path(i), oldFiles[i])
+		}
+		r.Probe("older-set-leftovers")
+		faults = append(faults, "older-set")
+	}
 	if crashAt >= 0 {
 		// crash Create at a tape-chosen write with a torn length biased
 		// to packet boundaries
